@@ -334,7 +334,7 @@ func (g *Gateway) resolveInternalSteps(plan *planner.QueryPlan, operation *ast.O
 		}
 
 		// __typename of the operation's root type
-		for _, f := range common.SelectionSetToFields(rs.SelectionSet, nil) {
+		for _, f := range ir.SelectedFields(rs.SelectionSet) {
 			if f.Name != common.TypenameFieldName {
 				continue
 			}
